@@ -93,6 +93,48 @@ def run(ctx):
         ctx.check('C12.X', ok, f.name, 'X13:lexer-error-token', f.loc, 'a lexer ERROR token is an error')
     ctx.floor('C12.X', 20)
 
+    # ---- VS: lexical rejections (value-set interpretation of the generated lexer) --------------
+    R('C12.VS', 'VS', 'a tab at the start of a token can only produce the ERROR token; after `$` every byte '
+      'outside the documented escape set {newline, CR, space, `:`, `$`, `^`, `{`, [A-Za-z0-9_-]} leads only to '
+      'failure returns of ReadEvalString')
+    import vs
+    from model import ret_value_class
+    vs.scanner_functions(prog)
+    rt = prog.fn('Lexer::ReadToken')
+    sc = vs.Scanner(prog, rt, read_masks=[vs.bit(9)])
+    sc.run()
+    toks = sorted({t for w, m, p, tk in sc.exits for t in (tk or (None,))})
+    err = prog.enum_value('Lexer::ERROR')
+    ctx.check('C12.VS', toks == [err] and not sc.violations, rt.name, 'tab-at-token-start:not-ERROR', rt.loc,
+              'first byte 0x09: reachable token values %s (ERROR = %s)' % (toks, err))
+    res = prog.fn('Lexer::ReadEvalString')
+    documented = set(b'\n\r :$^{_-') | set(range(ord('a'), ord('z') + 1)) | set(range(ord('A'), ord('Z') + 1)) | \
+        set(range(ord('0'), ord('9') + 1))
+    bad = 0
+    for v in range(256):
+        if v not in documented:
+            bad |= 1 << v
+    sc = vs.Scanner(prog, res, read_masks=[vs.bit(ord('$')), bad])
+    sc.run()
+    rets = {}
+    for e in res.events('ret'):
+        rets[(res.where(e), dstr(e.get('e')))] = ret_value_class(prog, res, e)
+    reached = [(w, d) for w, d, n in sc.rets if n >= 2]
+    nonfail = [(w, d) for w, d in reached if rets.get((w, d)) != 'fail']
+    ctx.check('C12.VS', bool(reached) and not nonfail, res.name, 'bad-dollar-escape:accepted', res.loc,
+              '`$` followed by a byte outside the documented set reaches only failure returns (%d returns reached, '
+              'non-failing: %s)' % (len(reached), nonfail))
+    # and the documented ones are not all rejected (the rule is not vacuous)
+    good = 0
+    for v in documented:
+        good |= 1 << v
+    sc2 = vs.Scanner(prog, res, read_masks=[vs.bit(ord('$')), good])
+    sc2.run()
+    ok2 = any(rets.get((w, d)) != 'fail' for w, d, n in sc2.rets if n >= 2)
+    ctx.check('C12.VS', ok2, res.name, 'dollar-escape:all-rejected', res.loc,
+              'documented `$`-escapes can be accepted (sanity of the rule)')
+    ctx.floor('C12.VS', 3)
+
     # ---- E1: errors carry file:line and stop ninja -------------------------------------------------
     R('C12.E1', 'E1', 'every failure return of the manifest parser either forwards a failing callee '
       'or comes from Lexer::Error (the only producer of the file:line prefix); real_main turns a '
